@@ -9,12 +9,14 @@ import (
 	"strings"
 
 	"google.golang.org/grpc/status"
+	"google.golang.org/protobuf/proto"
 	"google.golang.org/protobuf/types/known/fieldmaskpb"
 	"google.golang.org/protobuf/types/known/timestamppb"
 
 	"github.com/smart-core-os/sc-api/go/traits"
 	"github.com/smart-core-os/sc-golang/pkg/resource"
 	"github.com/smart-core-os/sc-golang/pkg/trait/meterpb"
+	"github.com/smart-core-os/sc-golang/pkg/trait/vendingpb"
 	"github.com/smart-core-os/sc-golang/verifharness/vcoq"
 	"github.com/smart-core-os/sc-golang/verifharness/vmsg"
 )
@@ -54,8 +56,8 @@ func (g *gen) pathMask(valid, bad []string) *fieldmaskpb.FieldMask {
 		return nil
 	}
 	fm := &fieldmaskpb.FieldMask{Paths: []string{}}
-	n := g.r.Intn(5)
-	if g.r.Chance(6) {
+	n := 1 + g.r.Intn(4)
+	if g.r.Chance(8) {
 		n = 0
 	}
 	for i := 0; i < n; i++ {
@@ -161,6 +163,112 @@ func (g *gen) meterMask() {
 			}
 			g.add(vcoq.App("KMeterSeq", coqMM(pre), opCoq, vcoq.Z(code), retCoq, coqMM(post)),
 				map[string]any{"config": cfg, "pre": jsMM(pre), "op": op, "code": code, "returned": jsMM(ret), "post": jsMM(post)}, tag)
+		}
+	}
+}
+
+// ---- vendingpb.UpdateStock with arbitrary path masks (nested quantity paths) ----
+
+func coqPQ(q *traits.Consumable_Quantity) string {
+	if q == nil {
+		return "None"
+	}
+	a := float64(q.Amount)
+	if a != float64(int64(a)) {
+		panic("non-integral amount generated")
+	}
+	return vcoq.Some(vcoq.Pair(vcoq.Z(int64(q.Unit)), vcoq.Z(int64(a))))
+}
+func coqPS(s *traits.Consumable_Stock) string {
+	return vcoq.App("mkPS", coqPQ(s.Used), coqPQ(s.Remaining), coqPQ(s.LastDispensed), vcoq.Bool(s.Dispensing))
+}
+func coqOptPS(s *traits.Consumable_Stock) string {
+	if s == nil {
+		return "None"
+	}
+	return vcoq.Some(coqPS(s))
+}
+
+var stockValidPaths = []string{"consumable", "used", "used.amount", "used.unit", "remaining", "remaining.amount", "remaining.unit",
+	"last_dispensed", "last_dispensed.amount", "last_dispensed.unit", "dispensing"}
+var stockBadPaths = []string{"no_such_field", "used.x", "dispensing.x", "remaining.amount.y", "stock"}
+
+func (g *gen) intQty() *traits.Consumable_Quantity {
+	switch g.r.Intn(6) {
+	case 0:
+		return nil
+	case 1:
+		return &traits.Consumable_Quantity{} // present but empty
+	case 2:
+		return &traits.Consumable_Quantity{Unit: traits.Consumable_Unit(g.unit())}
+	case 3:
+		return &traits.Consumable_Quantity{Amount: float32(g.r.Range(1, 500))}
+	default:
+		return &traits.Consumable_Quantity{Unit: traits.Consumable_Unit(g.unit()), Amount: float32(g.r.Range(1, 500))}
+	}
+}
+
+func (g *gen) stockMask() {
+	nseq := 60 * g.mult
+	names := []string{"beans", "water"}
+	for s := 0; s < nseq; s++ {
+		var init []*traits.Consumable_Stock
+		for _, nm := range names {
+			if g.r.Chance(85) {
+				init = append(init, &traits.Consumable_Stock{Consumable: nm, Used: g.intQty(), Remaining: g.intQty(), Dispensing: g.r.Chance(30)})
+			}
+		}
+		cfg := map[string]any{"model": "vendingpb", "initial_stock": jsStocks(init)}
+		var m *vendingpb.Model
+		if g.try("panic:vendingpb:options", cfg, func() { m = vendingpb.NewModel(vendingpb.WithInitialStock(init...)) }) {
+			continue
+		}
+		var hist []any
+		for k := g.r.Range(3, 8); k > 0; k-- {
+			name := g.pick(names)
+			other := names[0]
+			if other == name {
+				other = names[1]
+			}
+			pre, _ := m.GetStock(name)
+			otherPre, _ := m.GetStock(other)
+			req := &traits.Consumable_Stock{Consumable: name, Used: g.intQty(), Remaining: g.intQty(), Dispensing: g.r.Chance(40)}
+			if g.r.Chance(30) {
+				req.LastDispensed = g.intQty()
+			}
+			fm := g.pathMask(stockValidPaths, stockBadPaths)
+			op := map[string]any{"op": "UpdateStock", "stock": jsStock(req), "update_mask": vmsg.MaskJSON(fm)}
+			hist = append(hist, op)
+			replay := map[string]any{"config": cfg, "ops": append([]any{}, hist...)}
+			reqCoq := coqPS(req) // before the call: Merge filters the request in place
+			var ret *traits.Consumable_Stock
+			var err error
+			if g.try("panic:vendingpb", replay, func() { ret, err = m.UpdateStock(req, resource.WithUpdateMask(fm)) }) {
+				break
+			}
+			post, _ := m.GetStock(name)
+			otherPost, _ := m.GetStock(other)
+			otherSame := (otherPre == nil) == (otherPost == nil) && (otherPre == nil || proto.Equal(otherPre, otherPost))
+			code := int64(status.Code(err))
+			tag := "stockmask.update"
+			switch {
+			case fm == nil:
+				tag += ".nil"
+			case len(fm.Paths) == 0:
+				tag += ".empty"
+			default:
+				for _, p := range fm.Paths {
+					if strings.Contains(p, ".") {
+						tag = "stockmask.update.nested"
+					}
+				}
+			}
+			if err != nil {
+				tag += ".rejected"
+			}
+			retOK := (err != nil && ret == nil) || (err == nil && ret != nil && proto.Equal(ret, post))
+			g.add(vcoq.App("KStockMask", vcoq.Str(name), coqOptPS(pre), reqCoq, vmsg.Mask(fm), vcoq.Z(code), vcoq.Bool(retOK), coqOptPS(post), vcoq.Bool(otherSame)),
+				map[string]any{"config": cfg, "pre": jsStock(pre), "op": op, "code": code, "returned": jsStock(ret), "post": jsStock(post), "other_unchanged": otherSame}, tag)
 		}
 	}
 }
